@@ -223,8 +223,11 @@ theorem planeSphere_eq (con : PreCon) (margin : ℝ) (p1 n c2 : Vec3) (r2 : ℝ)
 
 /-! ### `mjraw_SphereCapsule` -/
 
-/-- `mju_clip(x, lo, hi)` as the C code computes it -/
-noncomputable def clip (x lo hi : ℝ) : ℝ := if x < lo then lo else if hi < x then hi else x
+/-- the generated `mju_clip(x, lo, hi)` on ℝ -/
+noncomputable def clip (x lo hi : ℝ) : ℝ := mju_clip (α := ℝ) x lo hi
+
+theorem clip_eq (x lo hi : ℝ) : clip x lo hi = if x < lo then lo else if hi < x then hi else x := by
+  simp only [clip, mju_clip, real_lt_iff]
 
 /-- the point of the capsule's segment that `mjraw_SphereCapsule` selects -/
 noncomputable def capsulePoint (c1 p2 a : Vec3) (len : ℝ) : Vec3 :=
@@ -235,21 +238,10 @@ noncomputable def capsulePoint (c1 p2 a : Vec3) (len : ℝ) : Vec3 :=
 theorem sphereCapsule_eq (con : PreCon) (margin : ℝ) (c1 z1 : Vec3) (r1 : ℝ) (p2 a : Vec3) (r2 len : ℝ) :
     sphereCapsule con margin c1 z1 r1 p2 a r2 len =
       sphereSphere con margin c1 z1 r1 (capsulePoint c1 p2 a len) a r2 := by
-  rw [sphereSphere_eq]
   obtain ⟨c10, c11, c12⟩ := c1; obtain ⟨p20, p21, p22⟩ := p2
   obtain ⟨z10, z11, z12⟩ := z1; obtain ⟨a0, a1, a2⟩ := a
   obtain ⟨cd, ⟨cn0, cn1, cn2⟩, ⟨cp0, cp1, cp2⟩, ⟨ct0, ct1, ct2⟩⟩ := con
-  simp only [sphereCapsule, mjraw_SphereCapsule, mju_dot3, ssNormal, normalize3, sub3, cross3, dot3, add3,
-    scl3, mkCon, PreCon.unchanged, capsulePoint, clip, real_sqrt, real_ofInt, decide_eq_true_eq, real_lt_iff,
-    ofSci_minval]
-  generalize (if a0 * (c10 - p20) + a1 * (c11 - p21) + a2 * (c12 - p22) < -len then -len
-    else if len < a0 * (c10 - p20) + a1 * (c11 - p21) + a2 * (c12 - p22) then len
-    else a0 * (c10 - p20) + a1 * (c11 - p21) + a2 * (c12 - p22)) = x
-  by_cases h0 : (margin + r1 + r2) * (margin + r1 + r2) <
-      (c10 - (a0 * x + p20)) * (c10 - (a0 * x + p20)) + (c11 - (a1 * x + p21)) * (c11 - (a1 * x + p21)) +
-        (c12 - (a2 * x + p22)) * (c12 - (a2 * x + p22)) <;>
-  by_cases h1 : (mju_normalize3 (a0 * x + p20 - c10) (a1 * x + p21 - c11) (a2 * x + p22 - c12)).1 < minval <;>
-  simp [h0, h1]
+  rfl
 
 /-! ### `mju_clampVec` (n = 3) -/
 
@@ -264,12 +256,12 @@ theorem clampVec3_eq (v lim : Vec3) :
 /-! ### scalar facts about clamping -/
 
 theorem clip_mem (x lo hi : ℝ) (h : lo ≤ hi) : lo ≤ clip x lo hi ∧ clip x lo hi ≤ hi := by
-  unfold clip; split_ifs <;> constructor <;> linarith
+  rw [clip_eq]; split_ifs <;> constructor <;> linarith
 
 /-- the clamp is the point of `[lo, hi]` nearest to `x` -/
 theorem clip_nearest (x lo hi t : ℝ) (ht : lo ≤ t ∧ t ≤ hi) :
     (clip x lo hi - x) * (clip x lo hi - x) ≤ (t - x) * (t - x) := by
-  unfold clip; split_ifs <;> nlinarith
+  rw [clip_eq]; split_ifs <;> nlinarith
 
 /-! ### `mju_makeFrame` -/
 
